@@ -178,9 +178,18 @@ pub fn random_placement(rng: &mut Rng, k: usize, n: usize) -> Vec<usize> {
     all
 }
 
-/// A random real in [-2 pi, 2 pi].
+/// A random real angle: half of the draws in [-2 pi, 2 pi], the rest several turns out
+/// ([-8 pi, 8 pi]), exact multiples of pi/2 up to +-8 pi, magnitudes up to 1000, and tiny angles
+/// (the statement draws parameters from the reals, not from one turn).
 pub fn random_angle(rng: &mut Rng) -> f64 {
-    (rng.f64() * 2.0 - 1.0) * 2.0 * PI
+    let unit = rng.f64() * 2.0 - 1.0;
+    match rng.below(10) {
+        0..=4 => unit * 2.0 * PI,
+        5..=6 => unit * 8.0 * PI,
+        7 => (rng.range(-16, 16) as f64) * PI / 2.0,
+        8 => unit * 1000.0,
+        _ => unit * 1e-3 * 10f64.powi(-(rng.below(7) as i32)),
+    }
 }
 
 /// All modifier stacks of depth `0..=max_depth` over {DAGGER, CONTROLLED, FORKED}.
